@@ -54,8 +54,10 @@ def gen_cases(rng, n_per_kind, n_perturb):
                     c['D']['Q'] = c['D']['Q'][:len(set(q for q, _, _ in c['D']['delta']) | {c['D']['q0']})] or c['D']['Q']
                 c['max_states'] = rng.choice([0, 0, len(c['D']['Q']), len(c['D']['Q']) + 1])
             elif kind in ('union', 'intersection', 'symdiff'):
-                c['D1'] = G.random_dfa(rng, rng.randint(1, 3), sigma)
-                c['D2'] = G.random_dfa(rng, rng.randint(1, 3), sigma, names=['p%d' % i for i in range(rng.randint(1, 3))])
+                # legal state names (\w+) with underscores and non-ASCII letters besides the usual q0, q1, ...
+                n1 = rng.choice([None, None, ['even_a', 'odd_a', 'q_0'], ['α', 'β1', 'q0']])
+                c['D1'] = G.random_dfa(rng, rng.randint(1, 3), sigma, names=n1[:rng.randint(1, 3)] if n1 else None)
+                c['D2'] = G.random_dfa(rng, rng.randint(1, 3), sigma, names=[rng.choice(['p%d', 'p_%d', 'é%d']) % i for i in range(rng.randint(1, 3))])
             elif kind in ('words_nfa', 'nfa2dfa'):
                 c['N'] = G.random_nfa(rng, rng.randint(1, 4), sigma, rng.choice(['_', 'ε']), peps=0.3)
                 c['N']['delta'] = [e for e in c['N']['delta'] if e[2]]
